@@ -20,6 +20,10 @@ Definition directive_date (d : directive) : Z :=
 
 Definition last_date (dl : list directive) : Z := fold_left (fun m d => Z.max m (directive_date d)) dl 0.
 
+(* the earliest directive date (for an empty journal: last_date = 0).  Dates of the year 0000 are negative day
+   numbers (day 0 = 0001-01-01), so the window of the step count starts here and not at 0. *)
+Definition first_date (dl : list directive) : Z := fold_left (fun m d => Z.min m (directive_date d)) dl (last_date dl).
+
 (* exact sum of the amounts the ledger posts to the account called [name] *)
 Definition ledger_total (es : list sentry) (name : str) : dec :=
   fold_left (fun acc e =>
@@ -35,7 +39,7 @@ Definition mtm_check (dl : list directive) (V : commodity) (es : list sentry) : 
   let T := last_date dl in
   flat_map (fun a =>
     match market_value dl V a T with
-    | Some e => if within_bound (ledger_total es (acc_name a)) e (step_bound dl a 0 T) then []
+    | Some e => if within_bound (ledger_total es (acc_name a)) e (step_bound dl a (first_date dl) T) then []
                 else [mkViol k_mtm (acc_name a) false]
     | None => []
     end) (al_accounts dl).
